@@ -448,7 +448,7 @@ func (t *test) Test10(ctx context.Context, c orgvarlinkcertification.VarlinkCall
 		return c.ReplyCertificationError(ctx, nil, nil)
 	}
 
-	if mytype_.Array[0] != "one" && mytype_.Array[1] != "two" && mytype_.Array[2] != "three" {
+	if mytype_.Array[0] != "one" || mytype_.Array[1] != "two" || mytype_.Array[2] != "three" {
 		return c.ReplyCertificationError(ctx, nil, nil)
 	}
 
